@@ -212,6 +212,9 @@ class Multi:
     def canon(self, w):
         return self.cn(w.model, [w.objs[p[0]] for p in POOL])
 
+    def refstate(self, w):
+        return (tuple(w.ref), w.t)
+
     def outcome(self, w):
         return w.last
 
